@@ -30,6 +30,13 @@ def c05(res, rng, tier):
              b"(\x96\x06\x00\x00\x00\x00\x00\x00\x00abcdefC\x02xy\x96\x01\x00\x00\x00\x00\x00\x00\x00zl.",
              b"(c_codecs\nencode\nX\x03\x00\x00\x00abcX\x06\x00\x00\x00latin1\x86R\x96\x03\x00\x00\x00\x00\x00\x00\x00xyzU\x01qt."]
     dom += [("extra", d) for d in extra]
+    # wide results: thousands of elements in one list / tuple / dict / nested pairs (node count, not depth)
+    import struct as _st
+    wide = [b"](" + b"K\x01" * 6000 + b"e.", b"(" + b"K\x02" * 7000 + b"t.",
+            b"}(" + b"".join(b"M" + _st.pack("<H", i) + b"N" for i in range(500)) + b"u.",
+            b"](" + b"K\x01K\x02\x86" * 3000 + b"e.", b"](" + b"]" * 5600 + b"e.",
+            b"\x80\x02](" + b"".join(b"X\x02\x00\x00\x00ab" for i in range(5200)) + b"e."]
+    dom += [("wide", d) for d in wide]
     lines, meta = dec_lines(dom)
     impl = C.implrun(lines)
     model = C.modelrun(lines)
@@ -45,7 +52,7 @@ def c05(res, rng, tier):
             continue                      # cyclic results have no finite re-encoding
         if BYTES_CALL.search(dump):
             continue                      # outside the statement by design
-        if len(dump) > 20000:
+        if len(dump) > (20000 if tag != "wide" else 400000):
             continue
         ndec += 1
         toks = hex_to_dec_longs(dump)
@@ -57,7 +64,12 @@ def c05(res, rng, tier):
     # chain must produce the bytes the implementation produces for the value it decoded
     chain = C.modelrun(["reenc %d %s %s %s" % (emeta[j][1], meta[emeta[j][0]][2], meta[emeta[j][0]][3], meta[emeta[j][0]][1].hex())
                         for j in range(len(elines))], env=LAST_ENV["C05"])
+    # theorem C05_redecode_with_maps (Proofs/ReflectFacts.v + RoundTripMaps.v): norm2 of a reflection of the
+    # model's result - maps iterated in reverse stored order - is what the second Decode must return
+    chain2 = C.modelrun(["reenc2 %d %s %s %s" % (emeta[j][1], meta[emeta[j][0]][2], meta[emeta[j][0]][3], meta[emeta[j][0]][1].hex())
+                         for j in range(len(elines))], env=LAST_ENV["C05"])
     in_fragment = 0
+    in_fragment2 = 0
     dlines, dmeta = [], []
     for j, eo in enumerate(eimpl):
         i, p, dump = emeta[j]
@@ -97,6 +109,13 @@ def c05(res, rng, tier):
                            "first": dump[:800], "second": do[:800], "reencoded_hex": dlines[k].split()[-1][:2000],
                            "cmd": "echo '%s' | harness/go/implrun" % dlines[k][:400]})
             continue
+        if chain2[j] not in ("NA", "ok TOOBIG") and "#staleappend" not in model[i]:
+            in_fragment2 += 1
+            if chain2[j] != "ok " + got:
+                res.violation("theorem C05_redecode_with_maps: norm2 of the reflected first result predicts %s, the implementation's second Decode returns %s (protocol %d)"
+                              % (chain2[j][:160], got[:160], p),
+                              {"kind": "correspondence", "theorem": "C05_redecode_with_maps / ReflectFacts.reflect_norm2", "input_hex": d.hex(),
+                               "pydict": pd, "strict": su, "protocol": p, "model": chain2[j][:800], "impl": do[:800]})
         if strip_model(dmodel[k]) != do and "#staleappend" not in dmodel[k]:
             res.violation("correspondence: decoder model vs implementation on re-encoded bytes",
                           {"kind": "correspondence", "case": dlines[k][:600], "model": dmodel[k][:400], "impl": do[:400]}, found_input=False)
@@ -104,7 +123,7 @@ def c05(res, rng, tier):
     res.coverage.update({
         "evaluations": len(lines) + len(elines) + len(dlines), "distinct_nontrivial": nontriv,
         "rule": "the C04 input stream (corpus, grammar pickles, mutations, soup, bombs, short sweep programs) x 4 configs; every successful first result (acyclic, below the dump budget, without a call of the bytearray / bytes builtins) is re-encoded at protocols 0..5 with the matching StrictUnicode and decoded again with the same configuration; NaNs are one class at protocol 0; the three documented limitations are allowed errors; non-trivial = completed round trips",
-        "programs": len(lines), "disagreements_checked": len(elines) + len(dlines), "successful_decodes": ndec, "reencodings_inside_theorem_fragment": in_fragment, "reencodings_total": len(elines), "input_tags": tag_hist(meta)})
+        "programs": len(lines), "disagreements_checked": len(elines) + len(dlines), "successful_decodes": ndec, "reencodings_inside_theorem_fragment": in_fragment, "second_decodes_predicted_by_maps_theorem": in_fragment2, "reencodings_total": len(elines), "input_tags": tag_hist(meta)})
     res.samples = [{"input_hex": meta[emeta[j][0]][1].hex()[:80], "protocol": emeta[j][1], "value": emeta[j][2][:120]}
                    for j in range(0, len(elines), max(1, len(elines) // 6))]
 
@@ -263,7 +282,12 @@ def c18(res, rng, tier):
     progs, hist = gen_pickles(rng.fork("gen"), 1200 if q else 20000)
     progs = [p for p in progs if b"Q" in p or b"P" in p]
     progs += [b"Pabc\n.", b"K\x01Q.", b"(Pa\nPb\nK\x01QPc\nt.", b"]Pa\naK\x05Qa(Pb\nPc\ne.", b"}Pk\nPv\ns.", b"Pa\nPb\n\x86Q.", b"K\x01QQQ.",
-              b"Pa\n.Pb\n.Pc\n.", b"(Pa\nPb\nPc\nPd\nPe\nPf\nl.", b"(Q.", b"K\x01(Q.", b"]Q.", b"P\n.", b"Pa\nq\x00h\x00h\x00\x87."]
+              b"Pa\n.Pb\n.Pc\n.", b"(Pa\nPb\nPc\nPd\nPe\nPf\nl.", b"(Q.", b"K\x01(Q.", b"]Q.", b"P\n.", b"Pa\nq\x00h\x00h\x00\x87.",
+              # one persistent id in several reference opcodes (an object reachable twice; two pickles of one stream; ids that
+              # print alike: 1, 1.0, 1L, '1', True): one hook call per opcode, never an earlier answer reused
+              b"(Pa\nPa\nt.", b"(Pa\nPb\nPa\nPa\nt.", b"(K\x01QK\x01Qt.", b"Pa\n.Pa\n.Pa\n.", b"K\x01Q.K\x01Q.",
+              b"(K\x01QG\x3f\xf0\x00\x00\x00\x00\x00\x00Q\x8a\x01\x01QI01\nQX\x01\x00\x00\x001QP1\nt.",
+              b"(K\x01K\x02\x86QK\x01K\x02\x86Qt.", b"]q\x00(Pa\nPa\neh\x00Pa\n\x86.", b"}(Pa\nPa\nPb\nPa\nu.", b"(NQNQ)Q)Qt."]
     lines, meta = [], []
     for p in progs:
         for pd, su in CONFIGS:
